@@ -5,6 +5,7 @@ import (
 	"fmt"
 	"io"
 	"strconv"
+	"unicode/utf8"
 )
 
 const encodeHex = "0123456789ABCDEF"
@@ -40,6 +41,14 @@ func writeQuotedString(w io.Writer, s string) {
 			}
 
 			start = i + 1
+		} else if c == utf8.RuneError {
+			// a byte that is not valid UTF-8 must not reach the output verbatim:
+			// replace it, like encoding/json does, with U+FFFD
+			if _, size := utf8.DecodeRuneInString(s[i:]); size == 1 {
+				io.WriteString(w, s[start:i])
+				io.WriteString(w, `\ufffd`)
+				start = i + 1
+			}
 		}
 	}
 
